@@ -4,6 +4,7 @@ R12.1 exactly-once collection under the `ray.wait` contract; the wait loop is le
 R12.2 result/K-point pairing (parallel and serial arms) and sibling accumulation.
 R12.3 tabulated results are re-ordered by coordinate before run() returns (shared with C29).
 R12.4 the per-K helper reads the weighted result after storing it and before clearing it.
+R12.5 worker environment: ray.init receives the runtime_env merged by get_ray_runtime_env; nothing overwrites it afterwards.
 """
 from __future__ import annotations
 
@@ -51,7 +52,70 @@ def _monotone_update(stmt: ast.stmt, C: str) -> Optional[str]:
     return None
 
 
+PAR = "wannierberri/parallel.py"
+
+
+def worker_environment(ctx) -> None:
+    """R12.5 — the workers must import the driver's checkout: the runtime_env handed to ray.init is the one get_ray_runtime_env built
+    from the user's runtime_env (driver's package directory added to py_modules), and nothing overwrites it before ray.init."""
+    from ..sem import Sem
+    idx = ctx.index
+    r5 = ctx.rule("R12.5", "ray.init receives the runtime_env built by get_ray_runtime_env (driver's checkout shipped to the workers)", min_instances=2)
+    gre = idx.function(PAR, "get_ray_runtime_env")
+    GS = Sem(idx, gre)
+    pkg = [s_ for s_ in stmts(gre.node) if isinstance(s_, ast.Assign) and "__file__" in norm(s_.value) and "dirname" in norm(s_.value)]
+    stores = [s_ for s_ in stmts(gre.node) if isinstance(s_, ast.Assign) and isinstance(s_.targets[0], ast.Subscript) and norm(s_.targets[0].slice) == "'py_modules'"]
+    okg = False
+    if len(pkg) == 1 and len(stores) == 1:
+        pv = norm(pkg[0].targets[0])
+        sl_, _, _ = GS.du.backward_slice(stores[0].value, GS.cfg.node(stores[0]))
+        adds = [c_ for c_ in ast.walk(gre.node) if isinstance(c_, ast.Call) and isinstance(c_.func, ast.Attribute) and c_.func.attr in ("append", "insert")
+                and any(norm(a_) == pv for a_ in c_.args)] + [e_ for e_ in sl_ if pv in names_in(e_)]
+        rets = [r_ for r_ in stmts(gre.node) if isinstance(r_, ast.Return) and r_.value is not None]
+        okg = bool(adds) and bool(rets) and norm(rets[-1].value) == norm(stores[0].targets[0].value)
+    r5.instance(gre.short)
+    r5.check(okg, "get_ray_runtime_env returns the user's runtime_env with the driver's package directory added to py_modules", gre, gre.node,
+             "get_ray_runtime_env no longer returns a runtime_env whose py_modules contains the directory of the running package", stmt="py_modules")
+    for name in ("ray_init", "ray_init_cluster"):
+        f = idx.function(PAR, name)
+        S = Sem(idx, f)
+        inits = [c_ for c_ in ast.walk(f.node) if isinstance(c_, ast.Call) and call_name(c_) == "ray.init"]
+        if not r5.expect(len(inits) == 1 and len(inits[0].keywords) == 1 and inits[0].keywords[0].arg is None and isinstance(inits[0].keywords[0].value, ast.Name),
+                         f"{name}: ray.init(**options) located", f, f.node, f"{name}: a single `ray.init(**options)` call was not found"):
+            continue
+        D = inits[0].keywords[0].value.id
+        init_st = enclosing(S.pm, inits[0], ast.stmt)
+        r5.instance(f"{f.short}: ray.init(**{D})")
+        built = [c_ for c_ in ast.walk(f.node) if isinstance(c_, ast.Call) and call_name(c_) == "get_ray_runtime_env"]
+        st_env = [s_ for s_ in stmts(f.node) if isinstance(s_, ast.Assign) and isinstance(s_.targets[0], ast.Subscript) and norm(s_.targets[0].value) == D
+                  and norm(s_.targets[0].slice) == "'runtime_env'"]
+        ok = len(built) == 1 and len(st_env) == 1
+        why = f"{name}: the result of get_ray_runtime_env is not stored as {D}['runtime_env']"
+        if ok:
+            v_ = S.resolve(st_env[0].value, S.cfg.node(st_env[0]))
+            ok = isinstance(v_, ast.Call) and call_name(v_) == "get_ray_runtime_env"
+            # the user's own runtime_env must be the input of the merge
+            a0 = built[0].args[0] if built[0].args else None
+            ok = ok and a0 is not None and "runtime_env" in norm(a0)
+        if ok:
+            n_store, n_init = S.cfg.node(st_env[0]), S.cfg.node(init_st)
+            for k_ in stmts(f.node):
+                if k_ is st_env[0] or k_ is init_st:
+                    continue
+                kills = (isinstance(k_, ast.Expr) and isinstance(k_.value, ast.Call) and isinstance(k_.value.func, ast.Attribute) and norm(k_.value.func.value) == D
+                         and k_.value.func.attr in ("update", "clear", "pop", "setdefault")) or \
+                    (isinstance(k_, ast.Assign) and any(norm(t_) == D for t_ in k_.targets)) or \
+                    (isinstance(k_, (ast.Assign, ast.Delete)) and any(isinstance(t_, ast.Subscript) and norm(t_.value) == D and norm(t_.slice) == "'runtime_env'"
+                                                                    for t_ in (k_.targets if hasattr(k_, "targets") else [])))
+                if kills and S.cfg.reachable(n_store, [S.cfg.node(k_)]) and S.cfg.reachable(S.cfg.node(k_), [n_init]):
+                    ok = False
+                    why = (f"{name}: `{norm1(k_)}` runs between `{norm1(st_env[0])}` and ray.init: a runtime_env given by the user replaces the merged one, so the "
+                           f"driver's checkout is not shipped and the workers import whatever wannierberri is installed on their node")
+        r5.check(ok, f"{name}: the merged runtime_env reaches ray.init", f, st_env[0] if st_env else init_st, why, stmt=f"{name} runtime_env")
+
+
 def run(ctx) -> None:
+    worker_environment(ctx)
     idx = ctx.index
     process = idx.function(RG, "process")
     cfg, du, pm = fctx(process)
@@ -144,6 +208,16 @@ def run(ctx) -> None:
         r1.check(any(ready_name in names_in(e_) for e_ in sl_), "the loop condition is computed from the ray.wait result", process, loop,
                  "the ray.wait loop condition does not depend on what ray.wait returned", stmt="wait-loop condition")
 
+    # (b0) ray.wait returns the ready refs in the order of the list it was given, not in completion order: a position in the returned list
+    #      says nothing about which refs were already there after the previous call
+    positional = [x for x in ast.walk(loop) if isinstance(x, ast.Subscript) and isinstance(x.value, ast.Name) and x.value.id == ready_name]
+    for x in positional:
+        r1.violation(process, enclosing(pm, x, ast.stmt) or loop,
+                     f"`{norm1(x)}` selects refs by their position in the list returned by ray.wait; that list is ordered like the submitted list, "
+                     f"so refs collected after an earlier wait are not a prefix of it: whenever workers finish out of submission order some K-points "
+                     f"are collected twice and others never", stmt=f"positional use of {ready_name}")
+    if positional:
+        return
     # (b) which indices are collected
     it_exprs, _, _ = du.backward_slice(coll.iter, cfg.node(coll))
     inv = None
@@ -582,6 +656,11 @@ def check_reorder(ctx, rid: str) -> None:
 from ..selftest import V  # noqa: E402
 
 SELFTEST = [
+    V("user options overwrite the merged runtime_env before ray.init (seeded C12-m5)", PAR,
+      "    ray_init_loc['num_cpus'] = num_cpus\n", "    ray_init_loc['num_cpus'] = num_cpus\n    ray_init_loc.update(ray_init)\n", "fire", "R12.5"),
+    V("new refs taken as the tail of the list returned by ray.wait (seeded C12-m6)", RG,
+      "            for ir in np.where(remotes_calculated_diff)[0]:\n                res = ray.get(remotes[ir])\n",
+      "            for ir in [remotes.index(r_) for r_ in remotes_calculated[int(remotes_calculated_old.sum()):]]:\n                res = ray.get(remotes[ir])\n", "fire", "R12.1"),
     V("exit counter advanced by the requested number (seeded C12-m4)", RG,
       "            remotes_calculated, _ = ray.wait(\n                remotes, num_returns=min(num_remotes_calculated + nstep_print, num_remotes),\n                timeout=60)\n\n            num_remotes_calculated = len(remotes_calculated)\n",
       "            num_remotes_calculated = min(num_remotes_calculated + nstep_print, num_remotes)\n            remotes_calculated, _ = ray.wait(remotes, num_returns=num_remotes_calculated, timeout=60)\n\n",
